@@ -47,6 +47,11 @@ def run(ctx):
     for j, (P, fa) in enumerate([(1, 1500), (3, 700)] if q else [(1, 1500), (3, 700), (1, 5), (2, 3000), (8, 2211), (3, 64)]):
         scen.append(dict(id="out-fault-p%d-%d" % (P, fa), k="out", producers=P, per=12, sizes=[300, 403, 1000, 64, 8, 2049],
                          writeDelayUs=0, seed=ctx.seed * 100 + 50 + j, maxprocs=0, writeFaultAt=fa))
+    # the application shuts the stream down in the middle of the traffic (slowly encoding messages widen the window): what reaches the
+    # wire before the connection is closed is still whole frames in submission order
+    for j, (P, sa) in enumerate([(1, 6), (2, 9)] if q else [(1, 6), (2, 9), (1, 3), (4, 30), (1, 14), (3, 7)]):
+        scen.append(dict(id="out-shutdown-p%d-%d" % (P, sa), k="out", producers=P, per=40, sizes=[64, 300, 8, 1000], writeDelayUs=rnd.choice([0, 100]),
+                         seed=ctx.seed * 100 + 70 + j, maxprocs=0, shutdownAfter=sa, slowEvery=2, slowUs=400))
     sp = os.path.join(ctx.scratch, "scen-out.ndjson")
     vlib.write_ndjson(sp, scen)
     env, rdir = vlib.race_env(ctx, "c11")
